@@ -228,20 +228,24 @@ func TestDrv_C18(t *testing.T) {
 		for i := 0; i < nrep; i++ {
 			repl = append(repl, fmt.Sprintf("10.9.%d.%d:%d", nrep, i+1, 7000+i))
 		}
-		cmap := map[string][]string{"mapped.test:80": repl, "other.test:80": {"10.9.9.9:1"}}
+		key := "mapped.test:80"
+		if nrep%2 == 0 { // names are matched as written
+			key = "Mapped.Test:80"
+		}
+		cmap := map[string][]string{key: repl, "other.test:80": {"10.9.9.9:1"}}
 		for _, sequential := range []bool{true, false} {
 			rec := &dialRec{}
 			runs++
-			tr.Emit("Reset", KV{"mode": "connect", "sequential": sequential, "resolved": []KV{}, "mapped": repl, "passthru": false, "half": 0, "target": "mapped.test:80"})
+			tr.Emit("Reset", KV{"mode": "connect", "sequential": sequential, "resolved": []KV{}, "mapped": repl, "passthru": false, "half": 0, "target": key})
 			if sequential {
 				k := 0
-				attack(newStack(rec, "connect", 0, cmap), "http://mapped.test:80/", 25+nrep, 1, func(*vegeta.Result) {
+				attack(newStack(rec, "connect", 0, cmap), "http://"+key+"/", 25+nrep, 1, func(*vegeta.Result) {
 					k++
 					tr.Emit("Attempt", KV{"k": k, "dialed": rec.take()})
 				})
 			} else {
 				rec.tr = tr
-				attack(newStack(rec, "connect", 0, cmap), "http://mapped.test:80/", 1000+nrep, 64, nil)
+				attack(newStack(rec, "connect", 0, cmap), "http://"+key+"/", 1000+nrep, 64, nil)
 			}
 			tr.Emit("End", nil)
 		}
